@@ -71,7 +71,7 @@ func remoteUpdate(s subject, c *characteristic.Characteristic, rec *recorder, la
 	run.Count("inproc_remote_updates", 1)
 	if panicked, text := vf.Recover(func() { c.UpdateValueFromConnection(v, peer) }); panicked {
 		run.Count("skipped_due_to_panic", 1)
-		run.Distinct("panic_sites_skipped(C12)", vf.PanicSite(text, "brutella/hc"))
+		notePanic(vf.PanicSite(text, "brutella/hc"))
 		return false
 	}
 	*history = append(*history, step)
@@ -106,7 +106,7 @@ func localUpdate(s subject, c *characteristic.Characteristic, label string, v in
 	run.Count("inproc_local_updates", 1)
 	if panicked, text := vf.Recover(func() { c.UpdateValue(v) }); panicked {
 		run.Count("skipped_due_to_panic", 1)
-		run.Distinct("panic_sites_skipped(C12)", vf.PanicSite(text, "brutella/hc"))
+		notePanic(vf.PanicSite(text, "brutella/hc"))
 		return false
 	}
 	*history = append(*history, "UpdateValue("+label+")")
@@ -116,9 +116,41 @@ func localUpdate(s subject, c *characteristic.Characteristic, label string, v in
 	return true
 }
 
+// domainValues: the values a well-behaved controller would write to this very characteristic (every value of a
+// small declared integer range, the bounds and their neighbours otherwise), as JSON numbers arrive (float64).
+func domainValues(c *characteristic.Characteristic) []hostile {
+	var out []hostile
+	add := func(f float64) { out = append(out, hostile{fmt.Sprintf("in-domain %v", f), f, true}) }
+	switch lo := c.MinValue.(type) {
+	case int:
+		if hi, ok := c.MaxValue.(int); ok && hi >= lo {
+			if hi-lo <= 40 {
+				for v := lo - 1; v <= hi+1; v++ {
+					add(float64(v))
+				}
+			} else {
+				for _, v := range []int{lo - 1, lo, lo + 1, (lo + hi) / 2, hi - 1, hi, hi + 1} {
+					add(float64(v))
+				}
+			}
+		}
+	case float64:
+		if hi, ok := c.MaxValue.(float64); ok && hi >= lo {
+			st, _ := c.StepValue.(float64)
+			if st <= 0 {
+				st = 1
+			}
+			for _, v := range []float64{lo - st, lo, lo + st, (lo + hi) / 2, hi - st, hi, hi + st} {
+				add(v)
+			}
+		}
+	}
+	return out
+}
+
 func inproc(r *vf.Run, subjects []subject) {
 	rnd := r.Rand("inproc")
-	values := hostileValues(rnd, r.Pick(0, 60))
+	values := hostileValues(rnd, r.Pick(0, 120))
 	r.Count("hostile_values", len(values))
 	exercised := map[string]bool{}
 	synthCover := map[string]bool{}
@@ -138,7 +170,8 @@ func inproc(r *vf.Run, subjects []subject) {
 		if !p.pr {
 			checkUnreadable("inproc", s, c0, nil)
 		}
-		for vi, hv := range values {
+		subjValues := append(append([]hostile{}, values...), domainValues(c0)...)
+		for vi, hv := range subjValues {
 			for state := 0; state < 2; state++ {
 				c := s.make()
 				rec := instrument(c)
@@ -158,7 +191,7 @@ func inproc(r *vf.Run, subjects []subject) {
 				if !p.pw || !p.pr {
 					r.Nontrivial(fmt.Sprintf("inproc|%s|%s|%d", s.Name, hv.Label, state))
 				}
-				if si%37 == 0 && vi == 3 && state == 0 {
+				if si%97 == 0 && vi == 3 && state == 0 {
 					r.Sample(map[string]interface{}{"path": "inproc", "subject": s.Name, "perms": c.Perms, "format": c.Format, "written": hv.Label,
 						"value_after": show(c.Value), "callbacks": rec.lastCall()})
 				}
@@ -167,7 +200,7 @@ func inproc(r *vf.Run, subjects []subject) {
 		exercised[s.Name] = true
 
 		// sequences on one object
-		nseq := r.Pick(40, 400)
+		nseq := r.Pick(40, 1200)
 		for q := 0; q < nseq; q++ {
 			sr := rand.New(rand.NewSource(r.Seed*7919 + int64(si)*100003 + int64(q)))
 			c := s.make()
